@@ -1,7 +1,7 @@
 (* props/C01.v - property C01: base and extension field arithmetic is exact and canonical.
    Only statements, each closed by `exact`, each followed by Print Assumptions. *)
 From Coq Require Import ZArith Bool List.
-From TF Require Import Word BFieldGen BField BFieldProofs BFieldLoops.
+From TF Require Import Word BFieldGen BField XField BFieldProofs BFieldLoops XFieldProofs.
 From TF Require Lucas.
 Open Scope Z_scope.
 
@@ -100,3 +100,54 @@ Theorem C01_div : forall a b, canon a -> canon b -> b <> 0 ->
   exists q, bfe_div a b = Some q /\ canon q /\ (val q * val b) mod P = val a.
 Proof. exact div_spec. Qed.
 Print Assumptions C01_div.
+
+(* ---------------------------------------------------------------- extension field *)
+(* reduce5 is the remainder of division by X^3 - X + 1, as a polynomial identity over Z *)
+Theorem C01_x_reduce_is_remainder : forall c0 c1 c2 c3 c4 X,
+  c0 + c1 * X + c2 * X ^ 2 + c3 * X ^ 3 + c4 * X ^ 4 =
+  (c3 + c4 * X) * (X ^ 3 - X + 1) + eval3 (reduce5 (c0, c1, c2, c3, c4)) X.
+Proof. exact reduce5_is_remainder. Qed.
+Print Assumptions C01_x_reduce_is_remainder.
+
+Theorem C01_x_mul_is_product_mod_shah : forall s t X,
+  eval3 s X * eval3 t X =
+  (let '(_, _, _, c3, c4) := conv5 s t in c3 + c4 * X) * (X ^ 3 - X + 1) + eval3 (vmul3 s t) X.
+Proof. exact vmul3_is_product_mod_shah. Qed.
+Print Assumptions C01_x_mul_is_product_mod_shah.
+
+Theorem C01_xadd : forall x y, canon3 x -> canon3 y ->
+  canon3 (xadd x y) /\ val3 (xadd x y) = red3 (vadd3 (val3 x) (val3 y)).
+Proof. exact xadd_spec. Qed.
+Print Assumptions C01_xadd.
+
+Theorem C01_xsub : forall x y, canon3 x -> canon3 y ->
+  canon3 (xsub x y) /\ val3 (xsub x y) = red3 (vsub3 (val3 x) (val3 y)).
+Proof. exact xsub_spec. Qed.
+Print Assumptions C01_xsub.
+
+Theorem C01_xneg : forall x, canon3 x -> canon3 (xneg x) /\ val3 (xneg x) = red3 (vneg3 (val3 x)).
+Proof. exact xneg_spec. Qed.
+Print Assumptions C01_xneg.
+
+Theorem C01_xmul : forall x y, canon3 x -> canon3 y ->
+  canon3 (xmul x y) /\ val3 (xmul x y) = red3 (vmul3 (val3 x) (val3 y)).
+Proof. exact xmul_spec. Qed.
+Print Assumptions C01_xmul.
+
+Theorem C01_xscale : forall x k, canon3 x -> canon k ->
+  canon3 (xscale x k) /\ val3 (xscale x k) = red3 (vmul3 (val3 x) (val k, 0, 0)).
+Proof. exact xscale_spec. Qed.
+Print Assumptions C01_xscale.
+
+(* PARTIAL: the inverse is the inverse whenever the norm is non-zero mod p; that every non-zero element has
+   non-zero norm (irreducibility of x^3 - x + 1 over Z/p) is not proved. *)
+Definition C01_xinverse_full : Prop := forall x, canon3 x -> val3 x <> (0, 0, 0) ->
+  exists y, xinverse x = Some y /\ canon3 y /\ red3 (vmul3 (val3 y) (val3 x)) = (1, 0, 0).
+Theorem C01_xinverse_partial : forall x, canon3 x -> norm3 (val3 x) mod P <> 0 ->
+  exists y, xinverse x = Some y /\ canon3 y /\ red3 (vmul3 (val3 y) (val3 x)) = (1, 0, 0).
+Proof. exact xinverse_spec. Qed.
+Print Assumptions C01_xinverse_partial.
+
+Theorem C01_xinverse_zero_panics : xinverse xzero = None.
+Proof. exact xinverse_zero_panics. Qed.
+Print Assumptions C01_xinverse_zero_panics.
